@@ -41,9 +41,14 @@ def default_inline(f, caller, nargs=0, kwnames=()):
     if f.cls is None and f.parent is None and f.module == caller.module and f.name.startswith('_') \
             and not f.name.startswith('__'):
         return True     # private module-level helper of the same module
-    if f.parent is not None and (f.parent is caller or f.parent is caller.parent) and not f.is_generator \
-            and f is not caller:
-        return True     # local closure called by the function that defines it, or by a sibling closure
+    if f.parent is not None and not f.is_generator and f is not caller:
+        anc = caller
+        depth = 0
+        while anc is not None and depth < 4:
+            if f.parent is anc:
+                return True     # local closure called from the function that defines it or from a closure nested in it
+            anc = anc.parent
+            depth += 1
     if f.cls is None and f.parent is None and f.module == caller.module and not f.is_generator \
             and f.name not in ('args_to_key', 'full_name') and len(f.node.body) <= 12:
         return True     # small module-level helper of the same module
